@@ -189,6 +189,28 @@ def search (c : α → Option K) : BT α K → Option α
 
 def bruteForce (c : α → Option K) (t : BT α K) : Option α := bestOf c t.items
 
+/-! ## the exported OBB tree of a mesh and the two mesh queries as the driver runs them -/
+/-- the real tree as exported through `getOBBTreeNode()`: every node has its box; leaves list their faces -/
+inductive XT (K : Type) where
+  | leaf (box : Obb K) (faces : List Nat)
+  | node (box : Obb K) (c1 c2 : XT K)
+
+def XT.box : XT K → Obb K
+  | .leaf b _ => b
+  | .node b _ _ => b
+def XT.faces : XT K → List Nat
+  | .leaf _ fs => fs
+  | .node _ c1 c2 => c1.faces ++ c2.faces
+/-- the abstract tree of one query: the children's bounds are computed from their boxes -/
+def XT.toBT (bound : Obb K → Option K) : XT K → BT Nat K
+  | .leaf _ fs => .leaf fs
+  | .node _ c1 c2 => .node (bound c1.box) (c1.toBT bound) (bound c2.box) (c2.toBT bound)
+
+/-- `TriangleMesh::findNearestPoint`: descent with the box distances as bounds and `triDist2` as cost;
+`tri f` = the three vertices of face `f` -/
+def meshNearest (tri : Nat → V3 K × V3 K × V3 K) (tree : XT K) (p : V3 K) : Option Nat :=
+  search (fun f => some (triDist2 (tri f).1 (tri f).2.1 (tri f).2.2 p)) (tree.toBT (fun b => some (b.dist2 p)))
+
 /-! ## bounding spheres of two and three points (`Geo::Point::calcBoundingSphere`), centre and radius -/
 def sphere2 (sqrt : K → K) (tol : K) (p0 p1 : V3 K) : V3 K × K :=
   let ctr := V3.sdiv (V3.add p0 p1) 2
